@@ -238,6 +238,18 @@ Fixpoint ins_node (x : node) (l : list node) : list node :=
   end.
 Definition sort_nodes (l : list node) : list node := fold_left (fun acc x => ins_node x acc) l [].
 
+(* sorted(peripherals, key=lambda comp: (len(comp.name), comp.name)) — the numbering order (6f6df8b) *)
+Definition name_len_leb (a b : name) : bool :=
+  let la := length (name_str a) in
+  let lb := length (name_str b) in
+  if la <? lb then true else if lb <? la then false else lex_leb (name_str a) (name_str b).
+Fixpoint ins_node_len (x : node) (l : list node) : list node :=
+  match l with
+  | [] => [x]
+  | y :: tl => if name_len_leb (n_name y) (n_name x) then y :: ins_node_len x tl else x :: l
+  end.
+Definition sort_nodes_len (l : list node) : list node := fold_left (fun acc x => ins_node_len x acc) l [].
+
 Definition has_doses (nd : node) : bool := match n_doses nd with [] => false | _ => true end.
 
 Fixpoint dosing_loop (cname : name) (l : list node) (acc : list node) : list node :=
@@ -327,7 +339,7 @@ Definition find_peripherals (g : graph) : list node :=
   match central g with
   | None => []
   | Some c =>
-      sort_nodes (filter (fun nd =>
+      sort_nodes_len (filter (fun nd =>
         Nat.eqb (out_degree g (n_name nd)) 1 && Nat.eqb (in_degree g (n_name nd)) 1
         && has_edge g (n_name nd) (n_name c) && has_edge g (n_name c) (n_name nd)) (g_nodes g))
   end.
@@ -467,6 +479,8 @@ Definition remove_bioavailability (g : graph) : res graph :=
   do d0 <- opt_res (dosing0 g) CValue;
   Ok (fst (set_bioavailability g d0 false)).
 
+(* (since the fixes 3342873 / decea79: the dose is moved only when the depot carries one, the inflows
+   of the removed depot are reconnected, and the zero-order block works on the UPDATED system) *)
 Definition set_instantaneous_absorption (cs : graph) : res graph :=
   do _d <- opt_res (dosing0 cs) CValue;
   if has_instantaneous_absorption cs then Ok cs
@@ -477,18 +491,23 @@ Definition set_instantaneous_absorption (cs : graph) : res graph :=
       | Some d =>
           do e <- opt_res (hd_error (out_edges cs (n_name d))) CIndex;
           do to_comp <- opt_res (find_node cs (e_dst e)) CValue;
-          do dd <- opt_res (hd_error (n_doses d)) CIndex;
-          let cb := fst (set_dose cs to_comp [dd]) in
-          Ok (remove_compartment cb d)
+          let '(cb, tc) := match n_doses d with
+                           | dd :: _ => set_dose cs to_comp [dd]
+                           | [] => (cs, to_comp)
+                           end in
+          let cb2 := fold_left (fun acc from =>
+                       match get_edge cs (n_name from) (n_name d) with
+                       | Some e0 => add_flow_like acc (n_name from) (n_name tc) e0
+                       | None => acc end) (preds cs (n_name d)) cb in
+          Ok (remove_compartment cb2 d)
       | None => Ok cs
       end;
     if has_zero_order_absorption model then
-      (* works on cs, the system of the model as it was when the function was entered *)
-      do dose_comp <- opt_res (dosing0 cs) CValue;
+      do dose_comp <- opt_res (dosing0 model) CValue;
       do sd <- opt_res (hd_error (sorted_doses dose_comp)) CIndex;
       let new_dose := bolus 1 in
       let ds := if 2 <=? length (n_doses dose_comp) then new_dose :: tl (sorted_doses dose_comp) else [new_dose] in
-      Ok (fst (set_dose cs dose_comp ds))
+      Ok (fst (set_dose model dose_comp ds))
     else Ok model.
 
 Definition set_zero_order_absorption (odes : graph) : res graph :=
@@ -551,7 +570,7 @@ Definition set_seq_zo_fo_absorption (cs : graph) : res graph :=
     do dose0 <- opt_res (hd_error (n_doses dose_comp)) CIndex;
     let have_zo := has_zero_order_absorption cs in
     match depot, have_zo with
-    | Some d, false => add_zero_order_absorption cs dose0 (Some d) None
+    | Some d, false => add_zero_order_absorption cs dose0 (Some dose_comp) None      (* e1c4639: on the dosing compartment *)
     | None, true =>
         if Nat.eqb (length (n_doses dose_comp)) 1
         then add_first_order_absorption cs dose0 dose_comp false false true
@@ -562,7 +581,8 @@ Definition set_seq_zo_fo_absorption (cs : graph) : res graph :=
     | None, false =>
         do m1 <- set_first_order_absorption cs;
         do depot1 <- find_depot m1;
-        add_zero_order_absorption m1 (bolus 1) depot1 None
+        (* 2e21c7f: a chain without depot gets the zero-order dose on its first compartment *)
+        add_zero_order_absorption m1 (bolus 1) (match depot1 with Some d => Some d | None => dosing0 m1 end) None
     | Some _, true => Ok cs
     end.
 
@@ -920,10 +940,11 @@ Definition step (f : req) (s : sk) : sres :=
       | INST, 1 => SOk (with_biob (with_lagb (with_tr s 0) false) false)
       | INST, _ => SOk s
       | FO, 0 => SOk (with_biob (with_lagb (with_abs s INST) false) false)
-      | FO, _ => SCrash CIndex
+      | FO, _ => SOk (with_abs s INST)                      (* depot removed, chain reconnected *)
+      | ZO, 1 => SOk (with_biob (with_lagb (with_tr (with_abs s INST) 0) false) false)
       | ZO, _ => SOk (with_abs s INST)
-      | SEQ, 0 => SOk (with_abs s FO)
-      | SEQ, _ => SCrash CIndex
+      | SEQ, 0 => SOk (with_biob (with_lagb (with_abs s INST) false) false)
+      | SEQ, _ => SOk (with_abs s INST)
       end
   | AbsFO =>
       match s_abs s, tr with
@@ -950,10 +971,8 @@ Definition step (f : req) (s : sk) : sres :=
   | AbsSeq =>
       match s_abs s, tr with
       | INST, 0 => SOk (with_abs s SEQ)
-      | INST, 1 => SOk (with_abs s ZO)
-      | INST, _ => SCrash CAttr
-      | FO, 0 => SOk (with_abs s SEQ)
-      | FO, _ => SCrash CListRemove
+      | INST, _ => SOk (with_abs s ZO)                      (* infusion on TRANSIT1: reads SEQ *)
+      | FO, _ => SOk (with_abs s SEQ)
       | ZO, 0 => SOk (with_biob (with_lagb (with_abs s SEQ) false) false)
       | ZO, _ => SOk s
       | SEQ, _ => SOk s
@@ -968,9 +987,9 @@ Definition step (f : req) (s : sk) : sres :=
   | BioOff => SOk (with_biob s false)
   | PerAdd => SOk (with_per s (S (s_periph s)))
   | PerRem => if s_krates s && (Nat.eqb (s_periph s) 2 || (Nat.eqb (s_periph s) 1 && s_elq s)) then SCrash CValue
-              else if s_periph s <=? 9 then SOk (with_per s (pred (s_periph s))) else SAnom
+              else SOk (with_per s (pred (s_periph s)))
   | PerSet n => if s_krates s && (((n <=? 1) && (2 <=? s_periph s)) || (Nat.eqb n 0 && (1 <=? s_periph s) && s_elq s)) then SCrash CValue
-                else if (s_periph s <=? n) || (s_periph s <=? 9) || (n <=? 1) then SOk (with_per s n) else SAnom
+                else SOk (with_per s n)
   | Transits n keep => step_transits s n keep
   end.
 
@@ -1002,14 +1021,6 @@ Definition is_abs (f : req) : bool := match f with AbsInst | AbsFO | AbsZO | Abs
 Definition is_transits (f : req) : bool := match f with Transits _ _ => true | _ => false end.
 
 (* guard conjuncts: each is false exactly on a family of (request, state) pairs on which the CODE fails *)
-Definition g_inst_depot_dosed (f : req) (s : sk) : bool :=       (* depot.doses[0] of a depot behind transits *)
-  negb (match f with AbsInst => s_depot s && negb (Nat.eqb (s_transits s) 0) | _ => false end).
-Definition g_inst_not_stale (f : req) (s : sk) : bool :=         (* second block works on the stale system *)
-  negb (match f, s_abs s with AbsInst, SEQ => Nat.eqb (s_transits s) 0 | _, _ => false end).
-Definition g_seq_has_depot (f : req) (s : sk) : bool :=          (* find_depot(...) is None *)
-  negb (match f, s_abs s with AbsSeq, INST => negb (Nat.eqb (s_transits s) 0) | _, _ => false end).
-Definition g_seq_depot_dosed (f : req) (s : sk) : bool :=        (* dose_list.remove(old_dose) *)
-  negb (match f, s_abs s with AbsSeq, FO => negb (Nat.eqb (s_transits s) 0) | _, _ => false end).
 Definition g_zo_depot_dosed (f : req) (s : sk) : bool :=         (* depot removed, chain left dangling *)
   negb (match f with AbsZO => s_depot s && negb (Nat.eqb (s_transits s) 0) | _ => false end).
 Definition g_fo_no_chain (f : req) (s : sk) : bool :=            (* DEPOT put in front of TRANSIT1 *)
@@ -1031,13 +1042,8 @@ Definition g_transit_no_lag (f : req) (s : sk) : bool :=         (* stale system
 Definition g_no_single_transit (f : req) (s : sk) : bool :=      (* produces the indistinguishable single transit *)
   negb (match f with
         | Transits 1 keep => negb (s_depot s && keep) && negb (Nat.eqb (s_transits s) 0 && absk_eqb (drop_depot_abs (s_abs s)) INST)
+        | AbsInst => s_depot s && Nat.eqb (s_transits s) 1     (* the depot behind one transit is removed *)
         | _ => false end).
-Definition g_periph_le9 (f : req) (s : sk) : bool :=             (* peripherals[-1] in string order *)
-  negb (match f with
-        | PerRem => 10 <=? s_periph s
-        | PerSet n => (n <? s_periph s) && (10 <=? s_periph s) && (2 <=? n)
-        | _ => false end).
-
 Definition g_rem_periph_rates (f : req) (s : sk) : bool :=       (* _find_noncov_theta(model, 1) *)
   negb (match f with
         | PerRem => s_krates s && (Nat.eqb (s_periph s) 2 || (Nat.eqb (s_periph s) 1 && s_elq s))
@@ -1051,9 +1057,8 @@ Definition g_keeps_bio (f : req) (s : sk) : bool :=              (* F dropped wi
                    end).
 
 Definition guard (f : req) (s : sk) : bool :=
-  g_inst_depot_dosed f s && g_inst_not_stale f s && g_seq_has_depot f s && g_seq_depot_dosed f s
-  && g_zo_depot_dosed f s && g_fo_no_chain f s && g_fo_seq_chain f s && g_fo_keeps_lag f s
-  && g_no_param_clash f s && g_transit_no_lag f s && g_no_single_transit f s && g_periph_le9 f s
+  g_zo_depot_dosed f s && g_fo_no_chain f s && g_fo_seq_chain f s && g_fo_keeps_lag f s
+  && g_no_param_clash f s && g_transit_no_lag f s && g_no_single_transit f s
   && g_rem_periph_rates f s && g_keeps_bio f s.
 
 (* "the corresponding detector reports exactly that feature", read through canon *)
